@@ -54,7 +54,7 @@ Definition res_code (r : res) : Z := match r with ROk => 0%Z | RErr e => err_cod
 (* classes deriving from MultiComponentMesh with two components *)
 Definition is_multi (k : kind) := match k with KImex | KComp2 | KDAE => true | _ => false end.
 
-Record arr := mkArr { a_oid : nat; a_kind : kind; a_dt : dtype; a_shape : list nat; a_buf : nat; a_off : nat }.
+Record arr := mkArr { a_oid : nat; a_kind : kind; a_dt : dtype; a_shape : list nat; a_buf : nat; a_idx : list nat }.
 
 Inductive value :=
 | VArr (a : arr)
@@ -74,20 +74,21 @@ Definition bind (n : nat) (v : value) (e : list (nat * value)) := (n, v) :: remo
 
 (* ---------------------------------------------------------------- shapes, reading *)
 Definition size (s : list nat) : nat := fold_right Nat.mul 1 s.
-Definition read_buf (bs : list (list cell)) (b off n : nat) : list cell := firstn n (skipn off (nth b bs [])).
-Definition read_arr (bs : list (list cell)) (a : arr) : list cell := read_buf bs (a_buf a) (a_off a) (size (a_shape a)).
+(* an array reads the cells of its buffer at the positions a_idx (in C order of its shape): views of any
+   stride, orientation or transposition are index maps into the one buffer *)
+Definition read_at (l : list cell) (ps : list nat) : list cell := map (fun i => nth i l c0) ps.
+Definition read_arr (bs : list (list cell)) (a : arr) : list cell := read_at (nth (a_buf a) bs []) (a_idx a).
 
-(* replace cells [off, off + length new) of a list (positions beyond the end of the list do not exist) *)
-Fixpoint splice_from (i : nat) (l : list cell) (off : nat) (new : list cell) : list cell :=
-  match l with
-  | [] => []
-  | x :: t => (if (off <=? i) && (i <? off + length new) then nth (i - off) new c0 else x) :: splice_from (S i) t off new
-  end.
-Definition splice (l : list cell) (off : nat) (new : list cell) : list cell := splice_from 0 l off new.
 Fixpoint set_nth {A} (l : list A) (i : nat) (x : A) : list A :=
   match l, i with [] , _ => [] | _ :: t, O => x :: t | h :: t, S j => h :: set_nth t j x end.
-Definition write_buf (bs : list (list cell)) (b off : nat) (new : list cell) : list (list cell) :=
-  set_nth bs b (splice (nth b bs []) off new).
+(* write cells cs at positions ps of a list (positions beyond the end do not exist) *)
+Fixpoint write_at (l : list cell) (ps : list nat) (cs : list cell) : list cell :=
+  match ps, cs with
+  | p :: ps', c :: cs' => write_at (set_nth l p c) ps' cs'
+  | _, _ => l
+  end.
+Definition write_buf (bs : list (list cell)) (b : nat) (ps : list nat) (new : list cell) : list (list cell) :=
+  set_nth bs b (write_at (nth b bs []) ps new).
 
 (* numpy broadcasting on reversed shapes (least significant axis first) *)
 Fixpoint bshape_rev (a b : list nat) : option (list nat) :=
@@ -244,23 +245,24 @@ Definition assign_cells (dt : dtype) (sh : list nat) (sdt : bool) (ssh : list na
 
 (* ---------------------------------------------------------------- selections on the first axis *)
 Inductive sel := SAll | SRange (lo hi : nat) | SIdx (i : nat).
-Inductive region := RegArr (sh : list nat) (off : nat) | RegCell (off : nat).
+Inductive region := RegArr (sh : list nat) (idx : list nat) | RegCell (p : nat).
+Definition sub (l : list nat) (off n : nat) : list nat := firstn n (skipn off l).
 Definition select (a : arr) (s : sel) : err + region :=
   match a_shape a with
   | [] => inl EUnsupported
   | n :: t =>
       let row := size t in
       match s with
-      | SAll => inr (RegArr (n :: t) (a_off a))
+      | SAll => inr (RegArr (n :: t) (a_idx a))
       | SRange lo hi => let lo' := Nat.min lo n in let hi' := Nat.min hi n in
-                        inr (RegArr ((hi' - lo') :: t) (a_off a + lo' * row))
+                        inr (RegArr ((hi' - lo') :: t) (sub (a_idx a) (lo' * row) ((hi' - lo') * row)))
       | SIdx i => if i <? n then
-                    match t with [] => inr (RegCell (a_off a + i)) | _ => inr (RegArr t (a_off a + i * row)) end
+                    match t with [] => inr (RegCell (nth i (a_idx a) 0)) | _ => inr (RegArr t (sub (a_idx a) (i * row) row)) end
                   else inl EIndex
       end
   end.
 Definition region_shape (r : region) := match r with RegArr sh _ => sh | RegCell _ => [] end.
-Definition region_off (r : region) := match r with RegArr _ off => off | RegCell off => off end.
+Definition region_idx (r : region) := match r with RegArr _ idx => idx | RegCell p => [p] end.
 
 (* ---------------------------------------------------------------- operations *)
 Inductive op :=
@@ -280,6 +282,9 @@ Inductive op :=
 | OMethCopy (d s : nat)                                                   (* d = s.copy() *)
 | OSum (d s : nat)                                                        (* d = np.sum(s) *)
 | OSum0 (d s : nat)                                                       (* d = np.sum(s, axis=0) *)
+| OView (d s : nat) (perm : list nat) (sl : list (Z * Z * nat))           (* d = s.transpose(perm)[start:stop:step, ...]
+                                                                             per result axis (start, step, count); any stride,
+                                                                             negative steps, sub-blocks, transposition *)
 | ODel (d : nat).                                                         (* del d *)
 
 Definition is_setitem (o : op) := match o with OSet _ _ _ => true | _ => false end.
@@ -288,20 +293,54 @@ Definition dst (o : op) : nat :=
   match o with
   | ONew d _ _ _ _ | ONewPart d _ _ _ _ _ | ONewFld d _ _ _ | OCopy d _ _ | OAssign d _ | OUfunc d _ _ _
   | OBin d _ _ _ | OUn d _ _ | OIop d _ _ | OSet d _ _ | OGet d _ _ | OComp d _ _ | OAbs d _ | OMethCopy d _
-  | OSum d _ | OSum0 d _ | ODel d => d
+  | OSum d _ | OSum0 d _ | OView d _ _ _ | ODel d => d
   end.
 
-Definition fresh_arr (h : heap) (i : nat) (nb : nat) (k : kind) (dt : dtype) (sh : list nat) : arr :=
-  mkArr (noid h + i) k dt sh (length (bufs h) + nb) 0.
+(* a new array owning the whole of a new buffer of n cells (memory layout of fresh arrays - C or F order -
+   is not observable through the operations below) *)
+Definition fresh_arr (h : heap) (i : nat) (nb : nat) (k : kind) (dt : dtype) (sh : list nat) (n : nat) : arr :=
+  mkArr (noid h + i) k dt sh (length (bufs h) + nb) (seq 0 n).
 
 Definition zc (z : Z) : cell := (z, 0%Z).
+
+(* ---- general basic-indexing views: positions (in C order of the result) inside the source's own C order *)
+Definition stride (sh : list nat) (p : nat) : nat := size (skipn (S p) sh).
+(* one result axis: (stride and extent of the source axis it runs over, start, step, count) *)
+Definition vaxis := (nat * nat * Z * Z * nat)%type.
+Definition axis_ok (x : vaxis) : bool :=
+  let '(st, n, s0, sp, c) := x in
+  match c with
+  | O => true
+  | S c' => ((0 <=? s0) && (s0 <? Z.of_nat n) && (0 <=? s0 + Z.of_nat c' * sp) && (s0 + Z.of_nat c' * sp <? Z.of_nat n))%Z
+  end.
+Fixpoint gather (axes : list vaxis) (base : Z) : list Z :=
+  match axes with
+  | [] => [base]
+  | (st, _, s0, sp, c) :: t => flat_map (fun j => gather t (base + (s0 + Z.of_nat j * sp) * Z.of_nat st)%Z) (seq 0 c)
+  end.
+Fixpoint nodupb (l : list nat) : bool :=
+  match l with [] => true | x :: t => negb (existsb (Nat.eqb x) t) && nodupb t end.
+Definition is_perm (perm : list nat) (n : nat) : bool :=
+  (length perm =? n) && forallb (fun k => existsb (Nat.eqb k) perm) (seq 0 n).
+(* shape and positions of  a.transpose(perm)[slices] ; None when the request is not a valid in-range view *)
+Definition view_of (a : arr) (perm : list nat) (sl : list (Z * Z * nat)) : option (list nat * list nat) :=
+  let sh := a_shape a in
+  if is_perm perm (length sh) && (length sl =? length sh) && (length (a_idx a) =? size sh) then
+    let axes := map (fun ps => let '(p, (s0, sp, c)) := ps in (stride sh p, nth p sh 0, s0, sp, c)) (combine perm sl) in
+    if forallb axis_ok axes then
+      let pos := map Z.to_nat (gather axes 0%Z) in
+      let idx := map (fun p => nth p (a_idx a) 0) pos in
+      let nsh := map (fun x => snd x) sl in
+      if forallb (fun p => p <? length (a_idx a)) pos && nodupb idx && (length idx =? size nsh) then Some (nsh, idx) else None
+    else None
+  else None.
 Definition last_dim (sh : list nat) := last sh 1.
 
 (* a ufunc call binding its result *)
 Definition do_ufunc (h : heap) (d : nat) (f : ufn) (args outs : list opval) : heap * res :=
   match ufunc_value (bufs h) f args outs with
   | inl e => fail h e
-  | inr (k, dt, s, cells) => ok_bind h [cells] d (VArr (fresh_arr h 0 0 k dt s)) 1
+  | inr (k, dt, s, cells) => ok_bind h [cells] d (VArr (fresh_arr h 0 0 k dt s (length cells))) 1
   end.
 
 (* particles.__add__/__sub__/__rmul__: p = particles(self); p.pos[:] = <expr on pos>; p.vel[:] = ...;
@@ -317,8 +356,8 @@ Definition part_result (h : heap) (d : nat) (pos vel q m : arr)
           | None => fail h EValue
           | Some nv =>
               ok_bind h [np; nv] d
-                      (VPart (noid h) (fresh_arr h 1 0 KPos (a_dt pos) (a_shape pos))
-                             (fresh_arr h 2 1 KVel (a_dt vel) (a_shape vel)) q m) 3
+                      (VPart (noid h) (fresh_arr h 1 0 KPos (a_dt pos) (a_shape pos) (length np))
+                             (fresh_arr h 2 1 KVel (a_dt vel) (a_shape vel) (length nv)) q m) 3
           end
       end
   | _, _ => fail h EValue
@@ -334,8 +373,8 @@ Definition fld_result (h : heap) (d : nat) (el mg : arr)
           | None => fail h EValue
           | Some nm =>
               ok_bind h [ne; nm] d
-                      (VFld (noid h) (fresh_arr h 1 0 KElec (a_dt el) (a_shape el))
-                            (fresh_arr h 2 1 KMagn (a_dt mg) (a_shape mg))) 3
+                      (VFld (noid h) (fresh_arr h 1 0 KElec (a_dt el) (a_shape el) (length ne))
+                            (fresh_arr h 2 1 KMagn (a_dt mg) (a_shape mg) (length nm))) 3
           end
       end
   | _, _ => fail h EValue
@@ -391,16 +430,16 @@ Definition exec (h : heap) (o : op) : heap * res :=
   | ONew d k dt sh val =>
       if is_meshclass k then
         let sh' := if is_multi k then 2 :: sh else sh in
-        ok_bind h [repeat (zc val) (size sh')] d (VArr (fresh_arr h 0 0 k dt sh')) 1
+        ok_bind h [repeat (zc val) (size sh')] d (VArr (fresh_arr h 0 0 k dt sh' (size sh'))) 1
       else fail h EUnsupported
   | ONewPart d sh vp vv vq vm =>
       let n := last_dim sh in
       ok_bind h [repeat (zc vp) (size sh); repeat (zc vv) (size sh); repeat (zc vq) n; repeat (zc vm) n] d
-              (VPart (noid h) (fresh_arr h 1 0 KPos DReal sh) (fresh_arr h 2 1 KVel DReal sh)
-                     (fresh_arr h 3 2 KNd DReal [n]) (fresh_arr h 4 3 KNd DReal [n])) 5
+              (VPart (noid h) (fresh_arr h 1 0 KPos DReal sh (size sh)) (fresh_arr h 2 1 KVel DReal sh (size sh))
+                     (fresh_arr h 3 2 KNd DReal [n] n) (fresh_arr h 4 3 KNd DReal [n] n)) 5
   | ONewFld d sh ve vm =>
       ok_bind h [repeat (zc ve) (size sh); repeat (zc vm) (size sh)] d
-              (VFld (noid h) (fresh_arr h 1 0 KElec DReal sh) (fresh_arr h 2 1 KMagn DReal sh)) 3
+              (VFld (noid h) (fresh_arr h 1 0 KElec DReal sh (size sh)) (fresh_arr h 2 1 KMagn DReal sh (size sh))) 3
   | OCopy d ck s =>
       match lookup s (env h) with
       | None => fail h EName
@@ -409,20 +448,22 @@ Definition exec (h : heap) (o : op) : heap * res :=
           | CArr k, VArr a =>
               if is_meshclass k then
                 if is_meshclass (a_kind a) then
-                  ok_bind h [read_arr bs a] d (VArr (fresh_arr h 0 0 k (a_dt a) (a_shape a))) 1
+                  ok_bind h [read_arr bs a] d (VArr (fresh_arr h 0 0 k (a_dt a) (a_shape a) (length (a_idx a)))) 1
                 else fail h ENotImpl
               else fail h EUnsupported
           | CArr k, _ => if is_meshclass k then fail h ENotImpl else fail h EUnsupported
           | CPart, VPart _ p v q m =>
               if is_meshclass (a_kind p) && is_meshclass (a_kind v) then
                 ok_bind h [read_arr bs p; read_arr bs v; read_arr bs q; read_arr bs m] d
-                        (VPart (noid h) (fresh_arr h 1 0 KPos (a_dt p) (a_shape p)) (fresh_arr h 2 1 KVel (a_dt v) (a_shape v))
-                               (fresh_arr h 3 2 (a_kind q) (a_dt q) (a_shape q)) (fresh_arr h 4 3 (a_kind m) (a_dt m) (a_shape m))) 5
+                        (VPart (noid h) (fresh_arr h 1 0 KPos (a_dt p) (a_shape p) (length (a_idx p)))
+                               (fresh_arr h 2 1 KVel (a_dt v) (a_shape v) (length (a_idx v)))
+                               (fresh_arr h 3 2 (a_kind q) (a_dt q) (a_shape q) (length (a_idx q)))
+                               (fresh_arr h 4 3 (a_kind m) (a_dt m) (a_shape m) (length (a_idx m)))) 5
               else fail h ENotImpl
           | CFld, VFld _ e g =>
               if is_meshclass (a_kind e) && is_meshclass (a_kind g) then
                 ok_bind h [read_arr bs e; read_arr bs g] d
-                        (VFld (noid h) (fresh_arr h 1 0 KElec (a_dt e) (a_shape e)) (fresh_arr h 2 1 KMagn (a_dt g) (a_shape g))) 3
+                        (VFld (noid h) (fresh_arr h 1 0 KElec (a_dt e) (a_shape e) (length (a_idx e))) (fresh_arr h 2 1 KMagn (a_dt g) (a_shape g) (length (a_idx g)))) 3
               else fail h ENotImpl
           | _, _ => fail h EData
           end
@@ -485,7 +526,7 @@ Definition exec (h : heap) (o : op) : heap * res :=
                       else
                         match assign_cells (a_dt a) (region_shape r) (u_cplx u) (u_shape u) (u_cells u) with
                         | None => fail h EValue
-                        | Some cells => (mkHeap (write_buf bs (a_buf a) (region_off r) cells) (noid h) (env h), ROk)
+                        | Some cells => (mkHeap (write_buf bs (a_buf a) (region_idx r) cells) (noid h) (env h), ROk)
                         end
                   end
               end
@@ -500,7 +541,7 @@ Definition exec (h : heap) (o : op) : heap * res :=
       | Some (VArr a) =>
           match select a sl with
           | inl e => fail h e
-          | inr (RegArr sh off) => ok_bind h [] d (VArr (mkArr (noid h) (a_kind a) (a_dt a) sh (a_buf a) off)) 1
+          | inr (RegArr sh idx) => ok_bind h [] d (VArr (mkArr (noid h) (a_kind a) (a_dt a) sh (a_buf a) idx)) 1
           | inr (RegCell off) =>
               ok_bind h [] d (VNum (if is_cplx (a_dt a) then NNpComplex else NNpFloat) (nth off (nth (a_buf a) bs []) c0)) 0
           end
@@ -513,7 +554,7 @@ Definition exec (h : heap) (o : op) : heap * res :=
       | Some (VArr a) =>
           if is_multi (a_kind a) && (c <? 2) then
             match a_shape a with
-            | 2 :: (_ :: _) => ok_bind h [] d (VArr (mkArr (noid h) KMesh (a_dt a) (tl (a_shape a)) (a_buf a) (a_off a + c * size (tl (a_shape a))))) 1
+            | 2 :: (_ :: _) => ok_bind h [] d (VArr (mkArr (noid h) KMesh (a_dt a) (tl (a_shape a)) (a_buf a) (sub (a_idx a) (c * size (tl (a_shape a))) (size (tl (a_shape a)))))) 1
             | [2] => fail h EUnsupported
             | _ => fail h EAttr
             end
@@ -556,7 +597,7 @@ Definition exec (h : heap) (o : op) : heap * res :=
   | OMethCopy d s =>
       match lookup s (env h) with
       | None => fail h EName
-      | Some (VArr a) => ok_bind h [read_arr bs a] d (VArr (fresh_arr h 0 0 (a_kind a) (a_dt a) (a_shape a))) 1
+      | Some (VArr a) => ok_bind h [read_arr bs a] d (VArr (fresh_arr h 0 0 (a_kind a) (a_dt a) (a_shape a) (length (a_idx a)))) 1
       | Some (VNum _ _) => fail h EUnsupported
       | Some _ => fail h EAttr
       end
@@ -579,11 +620,22 @@ Definition exec (h : heap) (o : op) : heap * res :=
                 let row := size (tl (a_shape a)) in
                 let cells := read_arr bs a in
                 ok_bind h [map (fun j => csum (map (fun i => nth (i * row + j) cells c0) (seq 0 n))) (seq 0 row)] d
-                        (VArr (fresh_arr h 0 0 (a_kind a) (a_dt a) (tl (a_shape a)))) 1
+                        (VArr (fresh_arr h 0 0 (a_kind a) (a_dt a) (tl (a_shape a)) row)) 1
             | _ => fail h EUnsupported
             end
           else fail h EUnsupported
       | Some _ => fail h EUnsupported
+      end
+  | OView d s perm sl =>
+      match lookup s (env h) with
+      | None => fail h EName
+      | Some (VArr a) =>
+          match view_of a perm sl with
+          | Some (nsh, idx) => ok_bind h [] d (VArr (mkArr (noid h) (a_kind a) (a_dt a) nsh (a_buf a) idx)) 1
+          | None => fail h EUnsupported
+          end
+      | Some (VNum _ _) => fail h EUnsupported
+      | Some _ => fail h EType
       end
   | ODel d =>
       match lookup d (env h) with
@@ -611,9 +663,9 @@ Definition enc_value (bs : list (list cell)) (v : option value) : list Z :=
 Local Close Scope Z_scope.
 
 (* objects in canonical order: per name, the object itself then its array attributes.
-   (object id, Some (buffer, lo, hi)) ; numbers carry no identity *)
-Definition obj := (nat * option (nat * nat * nat))%type.
-Definition obj_of_arr (a : arr) : obj := (a_oid a, Some (a_buf a, a_off a, a_off a + size (a_shape a))).
+   (object id, Some (buffer, positions)) ; numbers carry no identity *)
+Definition obj := (nat * option (nat * list nat))%type.
+Definition obj_of_arr (a : arr) : obj := (a_oid a, Some (a_buf a, a_idx a)).
 Definition objs_of_value (v : option value) : list obj :=
   match v with
   | Some (VArr a) => [obj_of_arr a]
@@ -623,7 +675,7 @@ Definition objs_of_value (v : option value) : list obj :=
   end.
 Definition overlap (x y : obj) : bool :=
   match snd x, snd y with
-  | Some (b1, l1, h1), Some (b2, l2, h2) => (b1 =? b2) && (l1 <? h2) && (l2 <? h1) && (l1 <? h1) && (l2 <? h2)
+  | Some (b1, i1), Some (b2, i2) => (b1 =? b2) && existsb (fun i => existsb (Nat.eqb i) i2) i1
   | _, _ => false
   end.
 Fixpoint index_of_oid (o : nat) (l : list obj) (i : nat) : nat :=
